@@ -41,3 +41,105 @@ CONTRACTS["optimization:constrain_sum_bounded"] = dict(
     defined_props=["C14"],
     raises_props=["C14"],
 )
+
+
+# ---- SpendingPackageAdjustment.update_instructions (C14, last sentence): every member's share stays within its minimum / maximum
+# proportion and the members add up to the package total.  Two programs; the fractions come from constrain_sum_bounded(fracs, 1,
+# min_props, max_props), seen here through ITS contract (clauses C14.within_bounds and C14.sum_meets_total_within_code_tolerance
+# above, instantiated by hand for s = 1 -- the callee is verified against them separately).
+def _env_package(adjust_total):
+    def make(it):
+        from pyvc.interp import PyObjV
+        from pyvc.core import LArr
+        from pyvc import source
+
+        om, um = source.load("optimization"), source.load("utils")
+        mn = [z3.Real("min_%d" % i) for i in range(2)]
+        mx = [z3.Real("max_%d" % i) for i in range(2)]
+        ini = [z3.Real("initial_%d" % i) for i in range(2)]
+        fr = [z3.Real("FR_%d" % i) for i in range(2)]
+        adj = [PyObjV("Adjustable", om, {"name": "frac_a"}), PyObjV("Adjustable", om, {"name": "frac_b"})]
+        vals = [z3.Real("adj_%d" % i) for i in range(3 if adjust_total else 2)]
+        if adjust_total:
+            adj.append(PyObjV("Adjustable", om, {"name": "package_spend"}))
+        self = PyObjV("SpendingPackageAdjustment", om, {"name": "pkg", "prog_name": ["a", "b"], "t": 2020.0, "adjustables": adj,
+                                                      "min_props": LArr(2, it._list_reader(mn)), "max_props": LArr(2, it._list_reader(mx)), "initial_spends": LArr(2, it._list_reader(ini))})
+        ts = lambda: PyObjV("TimeSeries", um, {"t": [], "vals": [], "units": "$", "assumption": None, "sigma": None, "_sampled": False})
+        instructions = PyObjV("ProgramInstructions", source.load("programs"), {"alloc": {"a": ts(), "b": ts()}})
+        total = vals[2] if adjust_total else ini[0] + ini[1]
+        return {"self": self, "instructions": instructions, "adjustable_values": LArr(len(vals), it._list_reader(vals)), "FR": LArr(2, it._list_reader(fr)),
+                "fr": fr, "mn": mn, "mx": mx, "total": total}
+
+    return make
+
+
+for _adj in (True, False):
+    CONTRACTS["optimization:SpendingPackageAdjustment.update_instructions#%s" % ("adjustable_total" if _adj else "fixed_total")] = dict(
+        schema=schema, make_env=_env_package(_adj),
+        call_stubs={"constrain_sum_bounded": (lambda it, *a, **k: it.ghost_env["FR"])},
+        # the callee's ensures, for s = 1
+        requires=["all(fr[i] >= mn[i] and fr[i] <= mx[i] for i in range(2))", "abs(fr[0] + fr[1] - 1) <= 1e-08 + 1e-05", "total >= 0"],
+        ensures=[
+            ("C14.member_spending_is_its_fraction_of_the_package_total", "instructions.alloc['a'].vals[0] == fr[0] * total and instructions.alloc['b'].vals[0] == fr[1] * total"),
+            ("C14.member_share_within_its_minimum_and_maximum_proportion",
+             "all(instructions.alloc[p].vals[0] >= mn[i] * total and instructions.alloc[p].vals[0] <= mx[i] * total for i, p in enumerate(['a', 'b']))"),
+            ("C14.members_add_up_to_the_package_total_within_the_code_tolerance", "abs(instructions.alloc['a'].vals[0] + instructions.alloc['b'].vals[0] - total) <= (1e-08 + 1e-05) * total"),
+            ("C14.spending_is_dated_at_the_package_year", "instructions.alloc['a'].t == [2020.0] and instructions.alloc['b'].t == [2020.0]"),
+        ],
+        defined_props=["C14"], adjust_total=_adj)
+
+
+def _replay_package(model, contract):
+    """replay on a REAL SpendingPackageAdjustment (built without its constructor) and real TimeSeries allocations; the real
+    constrain_sum_bounded runs (no stub), so a refusal (FailedConstraint / AssertionError) counts as a signalled failure"""
+    import numpy as np
+    import atomica.optimization as ao
+    import atomica.utils as au
+
+    def val(name):
+        v = model.eval(z3.Real(name), model_completion=True)
+        try:
+            return float(v.numerator_as_long()) / float(v.denominator_as_long())
+        except Exception:
+            v = v.approx(12)
+            return float(v.numerator_as_long()) / float(v.denominator_as_long())
+
+    adj_total = contract["adjust_total"]
+    mn = [val("min_%d" % i) for i in range(2)]
+    mx = [val("max_%d" % i) for i in range(2)]
+    ini = [val("initial_%d" % i) for i in range(2)]
+    x = [val("adj_%d" % i) for i in range(3 if adj_total else 2)]
+    pkg = object.__new__(ao.SpendingPackageAdjustment)
+    pkg.name, pkg.prog_name, pkg.t = "pkg", ["a", "b"], 2020.0
+    pkg.min_props, pkg.max_props, pkg.initial_spends = np.array(mn), np.array(mx), np.array(ini)
+    pkg.adjustables = [ao.Adjustable("frac_a"), ao.Adjustable("frac_b")] + ([ao.Adjustable("package_spend")] if adj_total else [])
+
+    class _Instr:
+        pass
+
+    instr = _Instr()
+    instr.alloc = {"a": au.TimeSeries(), "b": au.TimeSeries()}
+    total = x[2] if adj_total else ini[0] + ini[1]
+    pre = dict(min_props=mn, max_props=mx, initial_spends=ini, adjustable_values=x, package_total=total)
+    try:
+        with np.errstate(all="ignore"):
+            pkg.update_instructions(np.array(x), instr)
+    except (ao.FailedConstraint, AssertionError) as e:
+        return dict(verdict="holds", detail="the real code signalled that the proposal cannot be satisfied (%s)" % type(e).__name__, prestate=pre)
+    except Exception as e:
+        return dict(verdict="violates", detail="real code raised %s: %s" % (type(e).__name__, e), prestate=pre)
+    spend = [float(instr.alloc[p].get(2020.0)) for p in ("a", "b")]
+    tol = (1e-8 + 1e-5) * abs(total) + 1e-12
+    bad = []
+    for i, p in enumerate(("a", "b")):
+        if spend[i] < mn[i] * total - tol or spend[i] > mx[i] * total + tol:
+            bad.append("share of %s is %r of a total %r, allowed [%r, %r]" % (p, spend[i], total, mn[i], mx[i]))
+    if abs(sum(spend) - total) > tol:
+        bad.append("members add up to %r, package total %r" % (sum(spend), total))
+    pre["spending_after"] = spend
+    return dict(verdict="violates" if bad else "holds", detail="; ".join(bad) or "shares within their proportions and adding up to the total", prestate=pre)
+
+
+for _k, _c in CONTRACTS.items():
+    if "SpendingPackageAdjustment" in _k:
+        _c["replay_hook"] = _replay_package
